@@ -463,6 +463,14 @@ def print_unit(r, verbose=False):
 if __name__ == '__main__':
     try:
         rc = main(sys.argv[1:])
+    except SystemExit:
+        raise
+    except BaseException as e:
+        # a crash of the machinery (bad sidecar, missing tool, ...) is never a verdict: exit 2, no VIOLATION line
+        import traceback
+        traceback.print_exc()
+        print('UNDECIDED: machinery error: %s: %s' % (type(e).__name__, str(e)[:300]))
+        rc = 2
     finally:
         if not os.environ.get('VERIF_KEEP_GEN'):
             shutil.rmtree(GEN_DIR, ignore_errors=True)
